@@ -34,7 +34,8 @@ RULE = ("job = seed -> scenario (version x flavour x options) x victim role; "
         "digest(scenario, victim, mutation); non-trivial = mutation emitted "
         "and the victim processed it"
         ' closeSocket=False dimension; every record the victim produced (incl. its alert) must be on the wire when its call raises; compressed-certificate bombs also declare lengths 0 and 1.'
-        ' Well-formed SSLv2-compatible ClientHello with boundary challenge lengths.')
+        ' Well-formed SSLv2-compatible ClientHello with boundary challenge lengths.'
+        ' Structural kinds also: ext_empty / ext_short (one extension of a hello / EncryptedExtensions / CertificateRequest keeps its type but has an empty or truncated payload, also on later messages of the flight), sig_other_family (CertificateVerify / ServerKeyExchange naming an advertised signature algorithm of another key family), sh_psk_index (ServerHello selecting a PSK identity that was not offered).')
 LEVEL_TEXT = ("Seeded mutation search at every message index of the drawn "
               "flavours, both roles, with deterministic work and memory "
               "meters.  Sampling; the byzantine encoder is tlslite's own.")
@@ -48,7 +49,8 @@ STRUCT = ["sni_no_hostname", "psk_empty", "dup_ext", "drop_ext",
           "unknown_ext", "ske_curve_type", "cert_unknown_oid",
           "keyupdate_unknown", "suite_not_offered", "compression_bad",
           "cert_bomb", "empty_suites", "alert_weird", "heartbeat_bad",
-          "empty_inner13"]
+          "empty_inner13", "ext_empty", "ext_short", "sig_other_family",
+          "sh_psk_index"]
 RECORD = ["oversize_record", "empty_record", "unknown_type", "sslv2_garbage",
           "hs_len_max_eof", "sslv2_hello"]
 PROBES = mutate.GENERIC + STRUCT + RECORD + [
@@ -129,6 +131,53 @@ def struct_mutation(kind, msg, ch, ver, ctxinfo):
                         TLSExtension(extType=ety).create(bytearray(ln)))
         msg.extensions = exts
         return [msg]
+    if kind in ("ext_empty", "ext_short") and \
+            getattr(msg, "extensions", None):
+        # one extension keeps its type but carries an empty / one-byte-short
+        # payload; `mu.occ` lets the fault land on a later message of the
+        # same flight too (second ClientHello after a HelloRetryRequest,
+        # EncryptedExtensions, ...)
+        if ctxinfo.setdefault("occ", [0, 0, 1, 2, 1][ch.draw(
+                5, "mu.occ")]) > ctxinfo.get("seen", 0):
+            ctxinfo["seen"] = ctxinfo.get("seen", 0) + 1
+            return None
+        exts = list(msg.extensions)
+        k = ch.draw(len(exts), "mu.ext")
+        body = bytearray(exts[k].write()[4:])
+        if kind == "ext_short" and len(body) > 1:
+            body = body[:-1] if ch.draw(2, "mu.exth") else body[:1]
+        else:
+            body = bytearray(0)
+        exts[k] = TLSExtension(extType=exts[k].extType).create(body)
+        msg.extensions = exts
+        return [msg]
+    if kind == "sh_psk_index" and name == "ServerHello" and any(
+            x.extType == 41 for x in (msg.extensions or [])):
+        # the server "selects" a PSK identity the client never offered
+        idx = [1, 5, 0xffff, 0x100][ch.draw(4, "mu.pski")]
+        msg.extensions = [
+            x if x.extType != 41 else
+            TLSExtension(extType=41).create(bytearray(idx.to_bytes(2, "big")))
+            for x in msg.extensions]
+        return [msg]
+    if kind == "sig_other_family" and name in ("CertificateVerify",
+                                               "ServerKeyExchange"):
+        # a well-formed, advertised signature algorithm of ANOTHER key
+        # family than the certificate's (the signature bytes stay)
+        fams = [(4, 1), (4, 3), (8, 7), (8, 4), (2, 2), (8, 8), (5, 3),
+                (8, 9), (2, 1)]
+        if name == "CertificateVerify":
+            cur = msg.signatureAlgorithm
+            if cur is None:
+                return None
+            alts = [a for a in fams if a != tuple(cur)]
+            msg.signatureAlgorithm = alts[ch.draw(len(alts), "mu.alg")]
+            return [msg]
+        if getattr(msg, "hashAlg", None) and ver == (3, 3):
+            alts = [a for a in fams if a != (msg.hashAlg, msg.signAlg)]
+            msg.hashAlg, msg.signAlg = alts[ch.draw(len(alts), "mu.alg")]
+            return [msg]
+        return None
     if kind == "ske_curve_type" and name == "ServerKeyExchange" and \
             getattr(msg, "curve_type", None) is not None:
         raw = bytearray(msg.write())
@@ -212,6 +261,18 @@ def run(job, streams=None):
             force_victim = "c"
         elif pre_kind == "cert_unknown_oid":
             allow = ["cert", "cert_cauth", "srp_cert", "hrr"]
+        elif pre_kind == "sh_psk_index":
+            versions = [(3, 4)]
+            allow = ["psk"]
+            force_victim = "c"
+        elif pre_kind == "sig_other_family":
+            versions = [(3, 3), (3, 4), (3, 3)]
+            if ch.draw(2, "mu.sigside") == 1:
+                allow = ["cert_cauth"]
+                force_victim = "s"
+            else:
+                allow = ["cert", "cert_cauth"]
+                force_victim = "c"
     sc = scen.draw_flavour(ch, versions=versions, allow=allow)
     if pre_kind == "ske_curve_type" and sc["flavour"] == "cert" and \
             sc.get("skey") in ("rsa",):
